@@ -298,6 +298,13 @@ func (a *abox) tags(t map[string]bool) {
 		t["flex"] = true
 	case "KMargin":
 		t["margin-box"] = true
+	case "KTable":
+		t["table"] = true
+	case "KTableCell":
+		t["table-cell"] = true
+		if a.Vis&3 != 0 {
+			t["table-decorated"] = true
+		}
 	}
 	if a.Vis&8 != 0 {
 		t["outline"] = true
